@@ -567,7 +567,11 @@ class _FittingTree(DiffprivlibMixin):
             if values[node.node_id].sum() or node.left_child != self._TREE_LEAF:
                 continue
 
-            values[node.node_id, 0, self.random_state.randint(len(self.classes))] = 1
+            # Same mechanism as for occupied leaves (uniform on all-zero counts), so that the label of an empty leaf
+            # comes from the same (secure, unless seeded) generator and does not reveal that the leaf is empty
+            mech = PermuteAndFlip(epsilon=self.epsilon, sensitivity=1, monotonic=True,
+                                  utility=[0] * len(self.classes), random_state=self.random_state)
+            values[node.node_id, 0, mech.randomise()] = 1
 
         self.values_ = values
 
